@@ -22,6 +22,10 @@ enum Shape {
 }
 
 fn shapes(depth: usize, budget: usize) -> Vec<(Shape, usize)> {
+    shapes_k(depth, budget, "a", "b")
+}
+
+fn shapes_k(depth: usize, budget: usize, k1: &'static str, k2: &'static str) -> Vec<(Shape, usize)> {
     // returns (shape, nodes used)
     let mut out = vec![];
     if budget == 0 {
@@ -33,19 +37,19 @@ fn shapes(depth: usize, budget: usize) -> Vec<(Shape, usize)> {
     if depth == 0 || budget < 2 {
         return out;
     }
-    let subs = shapes(depth - 1, budget - 1);
+    let subs = shapes_k(depth - 1, budget - 1, k1, k2);
     for (s, n) in &subs {
-        out.push((Shape::Obj(vec![("a", s.clone())]), n + 1));
-        out.push((Shape::Obj(vec![("b", s.clone())]), n + 1));
+        out.push((Shape::Obj(vec![(k1, s.clone())]), n + 1));
+        out.push((Shape::Obj(vec![(k2, s.clone())]), n + 1));
         out.push((Shape::Arr(vec![s.clone()]), n + 1));
     }
     for (s1, n1) in &subs {
         if n1 + 2 > budget {
             continue;
         }
-        let subs2 = shapes(depth - 1, budget - 1 - n1);
+        let subs2 = shapes_k(depth - 1, budget - 1 - n1, k1, k2);
         for (s2, n2) in &subs2 {
-            out.push((Shape::Obj(vec![("a", s1.clone()), ("b", s2.clone())]), n1 + n2 + 1));
+            out.push((Shape::Obj(vec![(k1, s1.clone()), (k2, s2.clone())]), n1 + n2 + 1));
             out.push((Shape::Arr(vec![s1.clone(), s2.clone()]), n1 + n2 + 1));
         }
     }
@@ -69,8 +73,12 @@ fn realise(s: &Shape, counter: &mut usize) -> MVal {
 }
 
 pub fn documents(depth: usize, budget: usize) -> Vec<MObj> {
+    documents_k(depth, budget, "a", "b")
+}
+
+pub fn documents_k(depth: usize, budget: usize, k1: &'static str, k2: &'static str) -> Vec<MObj> {
     let mut out = vec![];
-    for (s, _) in shapes(depth, budget) {
+    for (s, _) in shapes_k(depth, budget, k1, k2) {
         if let Shape::Obj(_) = s {
             let mut c = 0;
             if let MVal::Obj(o) = realise(&s, &mut c) {
@@ -82,8 +90,12 @@ pub fn documents(depth: usize, budget: usize) -> Vec<MObj> {
 }
 
 pub fn paths(max_seg: usize) -> Vec<String> {
+    paths_k(max_seg, "a", "b")
+}
+
+pub fn paths_k(max_seg: usize, k1: &str, k2: &str) -> Vec<String> {
     let mut segs: Vec<String> = vec![];
-    for k in ["a", "b"] {
+    for k in [k1, k2] {
         segs.push(k.to_string());
         for i in 0..3 {
             segs.push(format!("{}[{}]", k, i));
@@ -196,6 +208,13 @@ fn find_all(r: &Reps, path: &str) -> Vec<(&'static str, Result<Option<MVal>, Str
         ("serde_yaml::Mapping", crate::report::catch(|| conv(Object::find(&r.yaml, path)))),
         ("serde_json::Map", crate::report::catch(|| conv(Object::find(&r.json, path)))),
         ("HashMap<String,_>", crate::report::catch(|| conv(Object::find(&r.std, path)))),
+        (
+            "serde_json::Value as Document",
+            crate::report::catch(|| {
+                let v = serde_json::Value::Object(r.json.clone());
+                conv(Document::find(&v, path))
+            }),
+        ),
         (
             "&dyn Object as Document",
             crate::report::catch(|| {
@@ -313,6 +332,16 @@ pub fn run(tier: Tier) -> i32 {
     let parts: Vec<Stats> = docs.par_iter().map(|d| check_doc(d, &ps)).collect();
     for p in parts {
         rep.stats.merge(p);
+    }
+    // (1b) keys that look like indices ("0", "1"): a member named "0" is not element 0
+    for (k1, k2) in [("a", "0"), ("0", "1")] {
+        let docs_n = documents_k(3, if th { 6 } else { 5 }, k1, k2);
+        let ps_n = paths_k(3, k1, k2);
+        rep.stats.count("documents_with_numeric_keys", docs_n.len() as u64);
+        let parts: Vec<Stats> = docs_n.par_iter().map(|d| check_doc(d, &ps_n)).collect();
+        for p in parts {
+            rep.stats.merge(p);
+        }
     }
     // (2) through Rule::matches: `path: s_k` matches iff the addressed value is the string s_k
     //     (or an array containing it); unique leaves catch a value taken from elsewhere
